@@ -11,7 +11,7 @@ S->C  : DTCWTForward on identity image batches with random integer filter sets (
         The real 1-D routines (column and row variants) against TLC's Ref entries; all named filter pairs
         numerically against dtcwt.Transform2d.forward.
 """
-from .. import dtlib, dtchecks
+from .. import dtlib, dtchecks, stagetrace
 from ..findings import Findings
 
 LEVEL = "model_checking"
@@ -27,6 +27,7 @@ def run(rep):
     res2 = dtchecks.run_dt2(rep, rep.tier, ["BandWiringOK", "OrientOK", "FwdPyramidOK", "FwdAlignOK"], {"fwd"})
     dtchecks.forward_replay(rep, fnd, tab, res2.records, "C03")
     dtchecks.numeric_forward(rep, fnd, "C03", rep.tier)
+    stagetrace.validate_dtcwt(rep, "C03", rep.tier, "DTCWTForward")
     rep.assumptions += ["polarity premise sum(h0a*h0b) > 0 > sum(h1a*h1b): identity of the shipped tables (C18)",
                         "bounded sizes (coverage.tlc_runs); numeric comparison covers the named filter pairs"]
 
